@@ -5,11 +5,15 @@
    the ValueFlags bits, as an ASSUME-free invariant over a second variable. *)
 EXTENDS Alloc, Json
 
-CONSTANTS Level       \* "site" | "symbol"
-VARIABLES c, offpar, addrpar, sibling, fl, phase, alloc, used
-vars == <<c, offpar, addrpar, sibling, fl, phase, alloc, used>>
+CONSTANTS Level,      \* "site" | "symbol"
+          SymSubset   \* symbol kinds enumerated at the site level (all of them, or a few for the
+                      \* anti-vacuity configurations, which only have to exhibit one counterexample)
+AllSyms == SymKinds
+FewSyms == {"global_d", "hidden_f", "imp_d", "imp_f"}
+VARIABLES c, offpar, addrpar, aligned, sibling, fl, phase, alloc, used
+vars == <<c, offpar, addrpar, aligned, sibling, fl, phase, alloc, used>>
 
-SiteCases == {x \in [sym : SymKinds, ref : RefKinds, out : Outs, secw : BOOLEAN, relax : {TRUE}, relr : BOOLEAN] :
+SiteCases == {x \in [sym : SymSubset, ref : RefKinds, out : Outs, secw : BOOLEAN, relax : {TRUE}, relr : BOOLEAN] :
                  /\ Applicable(x)
                  /\ WProcess(x).err = ""}
 FlagRecs == [dynamic : BOOLEAN, absolute : BOOLEAN, ifunc : BOOLEAN, interposable : BOOLEAN, export : BOOLEAN,
@@ -22,39 +26,44 @@ Init ==
     /\ phase = "start" /\ alloc = Zero /\ used = Zero
     /\ IF Level = "site"
        THEN /\ c \in SiteCases
-            /\ offpar \in 0..1 /\ addrpar \in 0..1 /\ sibling \in BOOLEAN
+            /\ offpar \in 0..1 /\ addrpar \in 0..1 /\ aligned \in BOOLEAN /\ sibling \in BOOLEAN
+            \* a section aligned to >= 2 starts at an even address
+            /\ aligned => addrpar = offpar
             \* parities only matter where a relative relocation is involved
-            /\ (WProcess(c).part # "relative" /\ WWrite(c) # "relative") => (offpar = 0 /\ addrpar = 0 /\ ~sibling)
-            /\ ~c.relr => (offpar = 0 /\ addrpar = 0 /\ ~sibling)
-            /\ c.ref \in CodeRefs => (offpar = 0 /\ addrpar = 0)
+            /\ (WProcess(c).part # "relative" /\ WWrite(c) # "relative") => (offpar = 0 /\ addrpar = 0 /\ aligned /\ ~sibling)
+            /\ ~c.relr => (offpar = 0 /\ addrpar = 0 /\ aligned /\ ~sibling)
+            /\ c.ref \in CodeRefs => (offpar = 0 /\ addrpar = 0 /\ aligned)
             \* the writer's RELR table belongs to a GROUP of input files; the libc-based static PIE the
             \* replay builds always has other RELR reservations (crt / libc objects) in the group
-            /\ (c.out = "staticpie" /\ c.relr) => sibling
+            /\ (c.out = "staticpie" /\ c.relr /\ RelrRule = "old") => sibling
+            /\ RelrRule = "code" => ~sibling            \* the rule of the tree does not depend on it
             /\ fl = NoFlags
        ELSE /\ c \in {[AnyCase EXCEPT !.out = o, !.relr = r] : o \in Outs, r \in BOOLEAN}
-            /\ offpar = 0 /\ addrpar = 0 /\ sibling = FALSE
+            /\ offpar = 0 /\ addrpar = 0 /\ aligned = TRUE /\ sibling = FALSE
             /\ fl \in {f \in FlagRecs : ReachableFlags(f, c.out)}
 
 Layout == /\ phase = "start"
-          /\ alloc' = IF Level = "site" THEN SiteAlloc(c, offpar) ELSE ResAlloc(fl, c.out, c.relr)
+          /\ alloc' = IF Level = "site" THEN SiteAlloc(c, offpar, aligned) ELSE ResAlloc(fl, c.out, c.relr)
           /\ phase' = "laidout"
-          /\ UNCHANGED <<c, offpar, addrpar, sibling, fl, used>>
+          /\ UNCHANGED <<c, offpar, addrpar, aligned, sibling, fl, used>>
 Write == /\ phase = "laidout"
-         /\ used' = IF Level = "site" THEN SiteConsume(c, offpar, addrpar, sibling) ELSE ResConsume(fl, c.out, c.relr)
+         /\ used' = IF Level = "site" THEN SiteConsume(c, offpar, addrpar, aligned, sibling) ELSE ResConsume(fl, c.out, c.relr)
          /\ phase' = "written"
-         /\ UNCHANGED <<c, offpar, addrpar, sibling, fl, alloc>>
+         /\ UNCHANGED <<c, offpar, addrpar, aligned, sibling, fl, alloc>>
 Next == Layout \/ Write \/ (phase = "written" /\ UNCHANGED vars)
 Spec == Init /\ [][Next]_vars
 Done == phase = "written"
 
 (* the property, up to the named deviations *)
-InvAccounting == Done => (alloc = used \/ (Level = "site" /\ SiteDev(c, offpar, addrpar, sibling) \notin {"", "UNNAMED"}))
+InvAccounting == Done => (alloc = used \/ (Level = "site" /\ SiteDev(c, offpar, addrpar, aligned, sibling) \in OpenDevs))
+(* RELR never selected for an odd place *)
+InvRelrEven == (Done /\ Level = "site") => RelrPlaceEven(c, offpar, addrpar, aligned, sibling)
 (* strict form: must FAIL on the pinned tree's transcription (anti-vacuity, and the statement of the defects) *)
 InvStrict == Done => alloc = used
 
 Rec == [sym |-> c.sym, ref |-> c.ref, out |-> c.out, secw |-> c.secw, relax |-> c.relax, relr |-> c.relr,
-        offpar |-> offpar, addrpar |-> addrpar, sibling |-> sibling,
-        failure |-> SiteFailure(c, offpar, addrpar, sibling), dev |-> SiteDev(c, offpar, addrpar, sibling),
+        offpar |-> offpar, addrpar |-> addrpar, aligned |-> aligned, sibling |-> sibling,
+        failure |-> SiteFailure(c, offpar, addrpar, aligned, sibling), dev |-> SiteDev(c, offpar, addrpar, aligned, sibling),
         class |-> Class(c), predicted |-> Predicted(c)]
 EmitReplay == (Done /\ Level = "site") => PrintT(<<"REPLAY", ToJson(Rec)>>)
 =============================================================================
